@@ -795,3 +795,9 @@ def _strip_bounds_v(n):
         else:
             break
     return n
+
+
+@rule('C17.R9', "a box is drawn into pixels nobody else holds: the writable copy the box transform asks a read-only frame for is made for that call alone (shares C10.R13)")
+def r9(rr, repo):
+    from .c10 import r13 as c10r13
+    c10r13(rr, repo)
